@@ -113,16 +113,16 @@ Lemma raw_store_f64 f r o qs vs : 1 <= nw f <= 52 ->
   Forall2 (fun q v => rawq_ok q /\ dy_eqb q (dy_scale (nf f) v) = true) qs vs ->
   set_val_real f r o true (AF64 (map (fun q => Fin (dm q) (de q)) qs)) VFloat = Ok (spec_wres f r o vs).
 Proof.
-  intros Hw H. unfold set_val_real.
-  assert (Hobj: obj_path f true (AF64 (map (fun q => Fin (dm q) (de q)) qs)) = false).
-  { unfold obj_path, conv_factor_int. cbn [arr_nums]. rewrite map_map, existsb_map.
+  intros Hw H.
+  assert (Hobj: obj_path f true (AF64 (map (fun q => Fin (dm q) (de q)) qs)) VFloat = false).
+  { rewrite obj_path_AF64. rewrite map_map, existsb_map.
     replace (64 <=? nw f) with false by lia. rewrite !orb_false_r.
     apply existsb_false. clear - H. induction H as [|q v qs vs ((Hm & Hmag) & _) _ IH]; constructor; [|exact IH].
     unfold num_big64, f64_floor_Z. assert (2^53 < 2^64) by (apply pow2_lt; lia). assert (2^62 < 2^64) by (apply pow2_lt; lia).
     destruct (0 <=? de q) eqn:E.
     - specialize (Hmag ltac:(lia)). lia.
     - assert (0 < 2^(- de q)) by (apply pow2_pos; lia). nia. }
-  rewrite Hobj. cbn [astype_vd bind]. rewrite map_map. apply finish_raw.
+  rewrite (set_val_real_eq _ _ _ _ _ _ _ Hobj (exact_factor_raw _ _)). cbn [astype_vd bind]. rewrite map_map. apply finish_raw.
   clear Hobj. induction H as [|q v qs vs ((Hm & Hmag) & He) _ IH]; cbn [map]; constructor; [|exact IH].
   rewrite elem_pipe_raw_float by assumption. f_equal. apply raw_eres_spec. exact He.
 Qed.
@@ -131,15 +131,15 @@ Lemma raw_store_i64 f r o zs vs : 1 <= nw f <= 52 ->
   Forall2 (fun z v => Z.abs z < 2^53 /\ dy_eqb (dy_of_Z z) (dy_scale (nf f) v) = true) zs vs ->
   set_val_real f r o true (AI64 zs) VInt = Ok (spec_wres f r o vs).
 Proof.
-  intros Hw H. unfold set_val_real.
+  intros Hw H.
   assert (E1: 2^53 < 2^63) by (apply pow2_lt; lia). assert (E2: 2^63 < 2^64) by (apply pow2_lt; lia).
-  assert (Hobj: obj_path f true (AI64 zs) = false).
-  { unfold obj_path, conv_factor_int. cbn [arr_nums]. rewrite existsb_map.
+  assert (Hobj: obj_path f true (AI64 zs) VInt = false).
+  { rewrite obj_path_AI64_int, exact_factor_raw, orb_false_r. unfold conv_factor_int. rewrite existsb_map.
     replace (64 <=? nw f) with false by lia. replace (2^63 <=? 1) with false by reflexivity. cbn [orb].
     rewrite !existsb_false; [reflexivity| |].
     - clear - H E1. induction H as [|z v zs vs (Hz & _) _ IH]; constructor; [lia|exact IH].
     - clear - H E1 E2. induction H as [|z v zs vs (Hz & _) _ IH]; constructor; [unfold num_big64; lia|exact IH]. }
-  rewrite Hobj. cbn [astype_vd bind]. apply finish_raw.
+  rewrite (set_val_real_eq _ _ _ _ _ _ _ Hobj (exact_factor_raw _ _)). cbn [astype_vd bind]. apply finish_raw.
   clear Hobj. induction H as [|z v zs vs (Hz & He) _ IH]; cbn [map]; constructor; [|exact IH].
   rewrite elem_pipe_raw_int by assumption. f_equal. apply raw_eres_spec. exact He.
 Qed.
@@ -148,14 +148,14 @@ Lemma raw_store_u64 f r o zs vs : 1 <= nw f <= 52 ->
   Forall2 (fun z v => Z.abs z < 2^53 /\ dy_eqb (dy_of_Z z) (dy_scale (nf f) v) = true) zs vs ->
   set_val_real f r o true (AU64 (map wrap_u64 zs)) VInt = Ok (spec_wres f r o vs).
 Proof.
-  intros Hw H. unfold set_val_real.
+  intros Hw H.
   assert (E1: 2^53 < 2^63) by (apply pow2_lt; lia).
-  assert (Hobj: obj_path f true (AU64 (map wrap_u64 zs)) = false).
-  { unfold obj_path, conv_factor_int. cbn [arr_nums]. rewrite map_map, existsb_map.
+  assert (Hobj: obj_path f true (AU64 (map wrap_u64 zs)) VInt = false).
+  { rewrite obj_path_AU64_raw. rewrite map_map, existsb_map.
     replace (64 <=? nw f) with false by lia. rewrite !orb_false_r.
     apply existsb_false. apply Forall_forall. intros z _. unfold num_big64, wrap_u64.
     assert (0 < 2^64) by (apply pow2_pos; lia). pose proof (Z.mod_pos_bound z (2^64) ltac:(lia)). lia. }
-  rewrite Hobj. cbn [astype_vd bind]. rewrite map_map. apply finish_raw.
+  rewrite (set_val_real_eq _ _ _ _ _ _ _ Hobj (exact_factor_raw _ _)). cbn [astype_vd bind]. rewrite map_map. apply finish_raw.
   clear Hobj. induction H as [|z v zs vs (Hz & He) _ IH]; cbn [map]; constructor; [|exact IH].
   rewrite wrap_i64_of_u64 by lia.
   rewrite elem_pipe_raw_int by assumption. f_equal. apply raw_eres_spec. exact He.
@@ -222,6 +222,36 @@ Proof.
   - destruct (sg f); cbn [load renc dm de as_num num_to_f64]; rewrite f64_of_Z_exact by lia; cbn [f64_mul_pow2];
       replace (0 + k) with k by lia; f_equal; f_equal; apply rnd64_exact;
       pose proof (bitlen_le c 53 ltac:(lia) ltac:(lia)); pose proof (bitlen_nonneg c); unfold fits53; lia.
+Qed.
+
+(* functions._rescale without exact rationals, when utils.scale_raw has no reason to switch to Python
+   integers: the plain product by 2**k *)
+Lemma rescale_plain v k : k < 63 ->
+  match v with MI z => 0 < k -> Z.abs z * 2^k < 2^63 | MU z => 0 < k -> 0 <= z /\ z * 2^k < 2^63 | MF _ => True | MO _ => False end ->
+  rescale false false v k = mscale v k.
+Proof.
+  intros Hk Hv. unfold rescale. destruct (k <? 0) eqn:En.
+  - unfold mscale_raw. replace (0 <? k) with false by lia. rewrite andb_false_r. reflexivity.
+  - unfold mscale_raw. rewrite En. cbn [andb]. destruct (0 <? k) eqn:Ep; [|reflexivity].
+    assert (P: 0 < 2^k < 2^63) by (split; [apply pow2_pos; lia | apply pow2_lt; lia]). assert (P64: 2^63 < 2^64) by (apply pow2_lt; lia).
+    unfold mscale. replace (0 <=? k) with true by lia.
+    destruct v as [z|z|x|n]; [| |reflexivity|contradiction].
+    + specialize (Hv ltac:(lia)). replace (63 <=? k) with false by lia. replace (2^63 <=? Z.abs z * 2^k) with false by lia. cbn [orb].
+      unfold fits_i64. replace (- 2^63 <=? 2^k) with true by lia. replace (2^k <? 2^63) with true by lia. cbn [andb].
+      rewrite wrap_i64_small by (rewrite Z.abs_mul, (Z.abs_eq (2^k)) by lia; lia). reflexivity.
+    + destruct (Hv ltac:(lia)) as (Hz0 & Hzk). replace (63 <=? k) with false by lia. rewrite (Z.abs_eq z) by lia. replace (2^63 <=? z * 2^k) with false by lia. cbn [orb].
+      unfold fits_u64. replace (0 <=? 2^k) with true by lia. replace (2^k <? 2^64) with true by lia. cbn [andb].
+      rewrite wrap_u64_small by nia. reflexivity.
+Qed.
+Lemma rescale_small f c k : small_op f -> in_range f c -> -12 <= k <= 26 ->
+  rescale false false (load (storage f) c) k = Ok (renc (skind f k) (sval c k)).
+Proof.
+  intros Hf Hr Hk. rewrite rescale_plain; [apply mscale_small; assumption|lia|].
+  pose proof (small_code f c Hf Hr) as Hc. destruct Hf as (Hw & _). rewrite storage_small by lia.
+  assert (E38: 2^12 * 2^26 = 2^38) by reflexivity. assert (2^38 < 2^63) by (apply pow2_lt; lia).
+  destruct (sg f) eqn:Es; cbn [load]; intros Hp; assert (0 < 2^k <= 2^26) by (split; [apply pow2_pos; lia | apply pow2_le; lia]).
+  - nia.
+  - unfold in_range, cmin in Hr. rewrite Es in Hr. split; [lia|nia].
 Qed.
 
 (* ---------- NumPy's elementwise + and - on two rescaled operands ---------- *)
@@ -294,11 +324,31 @@ Proof.
     rewrite wrap_u64_op. reflexivity.
 Qed.
 
+(* _sub_raw: two uint64 operands are subtracted in int64 *)
+Definition subjoin (a b : rk3) : rk3 := match join a b with RU => RI | K => K end.
+Lemma msub_exact Ka Kb qa qb : opnd_ok Ka qa -> opnd_ok Kb qb ->
+  let q := exact_op OpSub qa qb in
+  msub (renc Ka qa) (renc Kb qb) = renc (subjoin Ka Kb) q
+  /\ Z.abs (dm q) <= 2^51 /\ -12 <= de q <= 0 /\ (subjoin Ka Kb <> RF -> de q = 0).
+Proof.
+  intros Ha Hb q.
+  destruct (mbin_addsub OpSub Ka Kb qa qb ltac:(discriminate) Ha Hb) as (Hm & Hqm & Hqe & Hq0). fold q in Hm, Hqm, Hqe, Hq0.
+  destruct Ka, Kb; try (unfold subjoin; cbn [join renc msub] in *; split; [exact Hm|]; repeat split; try lia; exact Hq0).
+  (* two unsigned operands *)
+  destruct Ha as (Hma & Hea & H0a & Hpa). destruct Hb as (Hmb & Heb & H0b & Hpb).
+  specialize (Hpa eq_refl). specialize (Hpb eq_refl).
+  destruct (exact_int_case OpSub qa qb ltac:(discriminate) (H0a ltac:(discriminate)) (H0b ltac:(discriminate))) as (Hd & He0). fold q in Hd, He0.
+  assert (E38: 2^38 < 2^63) by (apply pow2_lt; lia). assert (E64: 2^63 < 2^64) by (apply pow2_lt; lia).
+  unfold subjoin. cbn [join renc msub]. rewrite !wrap_u64_small by lia. rewrite !(wrap_i64_small (dm _)) by lia.
+  cbn [z_op] in Hd. rewrite wrap_i64_small by lia. rewrite Hd. repeat split; try lia.
+Qed.
+
 (* ---------- _add_raw / _sub_raw on one pair of codes ---------- *)
 Definition rkind (op : aop) (fx fy ft : fmt) : rk3 :=
   match op with
   | OpMul => if 0 <=? nf ft - nf fx - nf fy then join (skind fx 0) (skind fy 0) else RF
-  | _ => join (skind fx (nf ft - nf fx)) (skind fy (nf ft - nf fy))
+  | OpSub => subjoin (skind fx (nf ft - nf fx)) (skind fy (nf ft - nf fy))
+  | OpAdd => join (skind fx (nf ft - nf fx)) (skind fy (nf ft - nf fy))
   end.
 
 Lemma opnd_of_sval f c k : small_op f -> in_range f c -> -12 <= k <= 26 -> opnd_ok (skind f k) (sval c k).
@@ -313,7 +363,7 @@ Proof. intros Hn. unfold raw_cast. replace (64 <=? n) with false by lia. replace
 
 Lemma raw_elem_addsub op fx fy ft cx cy : op <> OpMul -> small_op fx -> small_op fy -> small_tgt ft ->
   in_range fx cx -> in_range fy cy ->
-  exists q, raw_elem op fx fy (nf ft) cx cy = Ok (renc (rkind op fx fy ft) q) /\
+  exists q, raw_elem false op fx fy (nf ft) cx cy = Ok (renc (rkind op fx fy ft) q) /\
     rawq_ok q /\ (rkind op fx fy ft <> RF -> de q = 0) /\
     dy_eqb q (dy_scale (nf ft) (exact_codes op fx cx fy cy)) = true.
 Proof.
@@ -321,7 +371,16 @@ Proof.
   assert (Hkx: -12 <= nf ft - nf fx <= 26) by (destruct Hx as (? & ?), Ht as (? & ?); lia).
   assert (Hky: -12 <= nf ft - nf fy <= 26) by (destruct Hy as (? & ?), Ht as (? & ?); lia).
   pose proof (opnd_of_sval fx cx _ Hx Hrx Hkx) as Oa. pose proof (opnd_of_sval fy cy _ Hy Hry Hky) as Ob.
-  destruct (mbin_addsub op _ _ _ _ Hop Oa Ob) as (Hm & Hqm & Hqe & Hq0).
+  assert (Hres: (match op with OpSub => msub (renc (skind fx (nf ft - nf fx)) (sval cx (nf ft - nf fx))) (renc (skind fy (nf ft - nf fy)) (sval cy (nf ft - nf fy)))
+                          | _ => mbin op (renc (skind fx (nf ft - nf fx)) (sval cx (nf ft - nf fx))) (renc (skind fy (nf ft - nf fy)) (sval cy (nf ft - nf fy))) end)
+                = renc (rkind op fx fy ft) (exact_op op (sval cx (nf ft - nf fx)) (sval cy (nf ft - nf fy)))
+                /\ Z.abs (dm (exact_op op (sval cx (nf ft - nf fx)) (sval cy (nf ft - nf fy)))) <= 2^51
+                /\ -12 <= de (exact_op op (sval cx (nf ft - nf fx)) (sval cy (nf ft - nf fy))) <= 0
+                /\ (rkind op fx fy ft <> RF -> de (exact_op op (sval cx (nf ft - nf fx)) (sval cy (nf ft - nf fy))) = 0)).
+  { destruct op; [| |congruence].
+    - exact (mbin_addsub OpAdd _ _ _ _ Hop Oa Ob).
+    - exact (msub_exact _ _ _ _ Oa Ob). }
+  destruct Hres as (Hm & Hqm & Hqe & Hq0).
   set (q := exact_op op (sval cx (nf ft - nf fx)) (sval cy (nf ft - nf fy))) in *.
   exists q.
   assert (E51: 2^51 < 2^53) by (apply pow2_lt; lia). assert (E62: 2^53 < 2^62) by (apply pow2_lt; lia).
@@ -331,13 +390,13 @@ Proof.
     { apply raw_cast_small. destruct Hx as (? & ?), Hy as (? & ?), Ht as (? & ?). lia. }
     assert (Hpc: precision_cast (nf ft) = false) by (unfold precision_cast; destruct Ht as (? & ?); lia).
     replace (match op with OpAdd | OpSub => _ | OpMul => _ end) with
-      (bind (mscale (cast_if false (load (storage fx) cx)) (nf ft - nf fx)) (fun a =>
-       bind (mscale (cast_if false (load (storage fy) cy)) (nf ft - nf fy)) (fun b => Ok (mbin op a b)))).
+      (bind (rescale false false (cast_if false (load (storage fx) cx)) (nf ft - nf fx)) (fun a =>
+       bind (rescale false false (cast_if false (load (storage fy) cy)) (nf ft - nf fy)) (fun b => Ok (match op with OpSub => msub a b | _ => mbin op a b end)))).
     2: { destruct op; [| |congruence]; rewrite Hrc, Hpc; reflexivity. }
-    cbn [cast_if]. rewrite (mscale_small fx cx _ Hx Hrx Hkx), (mscale_small fy cy _ Hy Hry Hky). cbn [bind].
-    rewrite Hm. destruct op; [| |congruence]; reflexivity.
+    cbn [cast_if]. rewrite (rescale_small fx cx _ Hx Hrx Hkx), (rescale_small fy cy _ Hy Hry Hky). cbn [bind].
+    rewrite Hm. reflexivity.
   - split; [lia|]. intros H0. replace (de q) with 0 by lia. rewrite Z.pow_0_r. lia.
-  - destruct op; [| |congruence]; exact Hq0.
+  - exact Hq0.
   - (* q and the scaled exact result have the same value *)
     set (E := Z.min (Z.min (-12) (- nf fx + nf ft)) (- nf fy + nf ft) - 12).
     assert (Hqe' : E <= de q) by (unfold E; lia).
@@ -363,7 +422,7 @@ Qed.
 
 Lemma raw_elem_mul fx fy ft cx cy : small_op fx -> small_op fy -> small_tgt ft ->
   in_range fx cx -> in_range fy cy ->
-  exists q, raw_elem OpMul fx fy (nf ft) cx cy = Ok (renc (rkind OpMul fx fy ft) q) /\
+  exists q, raw_elem false OpMul fx fy (nf ft) cx cy = Ok (renc (rkind OpMul fx fy ft) q) /\
     rawq_ok q /\ (rkind OpMul fx fy ft <> RF -> de q = 0) /\
     dy_eqb q (dy_scale (nf ft) (exact_codes OpMul fx cx fy cy)) = true.
 Proof.
@@ -390,7 +449,14 @@ Proof.
   assert (Hpc: precision_cast (nf ft) = false) by (unfold precision_cast; destruct Ht as (? & ?); lia).
   assert (Hexp: dy_scale (nf ft) (exact_codes OpMul fx cx fy cy) = {| dm := z; de := k |}).
   { unfold exact_codes, val_of_code, dy_scale. cbn [exact_op dy_mul dm de]. fold z. f_equal. unfold k. lia. }
-  rewrite Hexp. unfold raw_elem. rewrite Hrc, Hpc. cbn [cast_if]. rewrite Hp. fold k.
+  rewrite Hexp. unfold raw_elem, raw_prod. rewrite Hrc, Hpc. cbn [cast_if]. rewrite Hp. fold k.
+  assert (Hplain: rescale false false (match sg fx, sg fy with true, true => MI z | false, false => MU z | _, _ => MF (Fin z 0) end) k
+                  = mscale (match sg fx, sg fy with true, true => MI z | false, false => MU z | _, _ => MF (Fin z 0) end) k).
+  { apply rescale_plain; [lia|]. assert (0 < k -> 0 < 2^k <= 2^26) by (intros; split; [apply pow2_pos; lia | apply pow2_le; lia]).
+    destruct (sg fx) eqn:Esx, (sg fy) eqn:Esy; try exact I; intros Hkp; specialize (H Hkp).
+    - nia.
+    - specialize (Hposx eq_refl). specialize (Hposy eq_refl). unfold z in *. split; nia. }
+  rewrite Hplain.
   unfold rkind. fold k. unfold skind. replace (0 <=? 0) with true by reflexivity.
   destruct (0 <=? k) eqn:Ek.
   - assert (Hpk: 0 < 2^k <= 2^26) by (split; [apply pow2_pos; lia | apply pow2_le; lia]).
@@ -422,7 +488,7 @@ Qed.
 (* ---------- any operator; whole arrays ---------- *)
 Lemma raw_elem_small op fx fy ft cx cy : small_op fx -> small_op fy -> small_tgt ft ->
   in_range fx cx -> in_range fy cy ->
-  exists q, raw_elem op fx fy (nf ft) cx cy = Ok (renc (rkind op fx fy ft) q) /\
+  exists q, raw_elem false op fx fy (nf ft) cx cy = Ok (renc (rkind op fx fy ft) q) /\
     rawq_ok q /\ (rkind op fx fy ft <> RF -> de q = 0) /\
     dy_eqb q (dy_scale (nf ft) (exact_codes op fx cx fy cy)) = true.
 Proof.
@@ -434,7 +500,7 @@ Qed.
 
 Lemma map2M_raw op fx fy ft cxs cys : small_op fx -> small_op fy -> small_tgt ft -> length cxs = length cys ->
   Forall (in_range fx) cxs -> Forall (in_range fy) cys ->
-  exists qs, map2M (raw_elem op fx fy (nf ft)) cxs cys = Ok (map (renc (rkind op fx fy ft)) qs) /\
+  exists qs, map2M (raw_elem false op fx fy (nf ft)) cxs cys = Ok (map (renc (rkind op fx fy ft)) qs) /\
     Forall2 (fun q v => rawq_ok q /\ (rkind op fx fy ft <> RF -> de q = 0) /\ dy_eqb q (dy_scale (nf ft) v) = true)
             qs (map (fun p => exact_codes op fx (fst p) fy (snd p)) (combine cxs cys)).
 Proof.
@@ -454,13 +520,38 @@ Proof. induction qs as [|q qs IH]; [reflexivity|]. cbn [map all_MU fold_right re
 Lemma all_MF_renc qs : all_MF (map (renc RF) qs) = Some (map (fun q => Fin (dm q) (de q)) qs).
 Proof. induction qs as [|q qs IH]; [reflexivity|]. cbn [map all_MF fold_right renc] in *. unfold all_MF in IH. rewrite IH. reflexivity. Qed.
 
+(* in this domain nothing needs exact rationals: sums and products stay below 2^53 *)
+Lemma arith_exact_small op fx fy cxs cys ft : small_op fx -> small_op fy -> small_tgt ft ->
+  Forall (in_range fx) cxs -> Forall (in_range fy) cys -> arith_exact op fx cxs fy cys (nf ft) = false.
+Proof.
+  intros Hx Hy Ht Hrx Hry.
+  assert (Hsum: needs_exact_sum fx fy (nf ft) = false).
+  { unfold needs_exact_sum. destruct Hx as (? & ?), Hy as (? & ?), Ht as (? & ?).
+    destruct (0 <? Z.max (Z.max (nf fx - nf ft) (nf fy - nf ft)) 0) eqn:E; [|reflexivity]. cbn [andb]. lia. }
+  destruct op; cbn [arith_exact]; try exact Hsum.
+  apply andb_false_iff. right. apply existsb_false. apply Forall_forall. intros [cx cy] Hp. cbn [fst snd].
+  rewrite Forall_forall in Hrx, Hry.
+  pose proof (small_code fx cx Hx (Hrx _ (in_combine_l _ _ _ _ Hp))) as Bx. pose proof (small_code fy cy Hy (Hry _ (in_combine_r _ _ _ _ Hp))) as By.
+  assert (Hz: Z.abs (cx * cy) <= 2^24) by (assert (2^24 = 2^12 * 2^12) by reflexivity; nia).
+  assert (E24: 2^24 < 2^53) by (apply pow2_lt; lia). assert (E63: 2^53 < 2^63) by (apply pow2_lt; lia). assert (E64: 2^63 < 2^64) by (apply pow2_lt; lia).
+  unfold raw_prod. rewrite raw_cast_small by (destruct Hx as (? & ?), Hy as (? & ?); lia). cbn [cast_if].
+  rewrite !storage_small by (destruct Hx as (? & ?), Hy as (? & ?); lia).
+  destruct (sg fx) eqn:Esx, (sg fy) eqn:Esy; cbn [load mbin z_op int_mag_ge]; try reflexivity.
+  - rewrite wrap_i64_small by lia. lia.
+  - unfold wrap_u64. assert (0 < 2^64) by lia. pose proof (Z.mod_pos_bound (cx * cy) (2^64) ltac:(lia)).
+    destruct (Z_le_gt_dec 0 (cx * cy)); [rewrite Z.mod_small by lia; lia|].
+    (* two unsigned codes are non-negative *)
+    exfalso. pose proof (Hrx _ (in_combine_l _ _ _ _ Hp)) as Rx. pose proof (Hry _ (in_combine_r _ _ _ _ Hp)) as Ry.
+    unfold in_range, cmin in Rx, Ry. rewrite Esx in Rx. rewrite Esy in Ry. nia.
+Qed.
+
 Theorem imposed_raw op fx fy cxs cys ft r o :
   small_op fx -> small_op fy -> small_tgt ft -> length cxs = length cys -> cxs <> [] ->
   Forall (in_range fx) cxs -> Forall (in_range fy) cys ->
   arith_raw op fx cxs fy cys ft r o
   = Ok (spec_wres ft r o (map (fun p => exact_codes op fx (fst p) fy (snd p)) (combine cxs cys))).
 Proof.
-  intros Hx Hy Ht Hlen Hne Hrx Hry. unfold arith_raw.
+  intros Hx Hy Ht Hlen Hne Hrx Hry. unfold arith_raw. rewrite (arith_exact_small op fx fy cxs cys ft Hx Hy Ht Hrx Hry).
   destruct (map2M_raw op fx fy ft cxs cys Hx Hy Ht Hlen Hrx Hry) as (qs & Hqs & Hall).
   rewrite Hqs. cbn [bind].
   set (vs := map (fun p => exact_codes op fx (fst p) fy (snd p)) (combine cxs cys)) in *.
